@@ -6,7 +6,8 @@ def exp(x):
     try:
         return math.exp(x)
     except OverflowError:
-        return float('inf')
+        # (also raised for an int argument beyond the floats, of either sign)
+        return float('inf') if x > 0 else 0.0
 
 
 def power(a, b):
